@@ -222,6 +222,10 @@ func genC15(r *rand.Rand, tier string, st *Stats) []Case {
 	// the sites this builder's analysis found, always
 	for _, s := range []string{"find all 'a' ( ) 'b'", "find all {'a'} = s 'b' s", "find all in 'b', digit , 'a'",
 		"find all in 'b', caseless 'c' , 'a'", "set t to transform return 1 + 2 end replace all 'a' with t",
+		// a minus glued to the digit after it (no blank): still the binary operator, whatever stands in the gap before it
+		"set t to transform return matchLength -1 end replace all 'a' with t", "set t to transform return matchLength-1 end replace all 'a' with t",
+		"set t to transform return ( matchLength ) -1 end replace all 'a' with t", "set t to transform set n to 9 return n -1 -2 end replace all 'a' with t",
+		"set p to pattern 'a' begin return matchLength -1 == 0 end find all p",
 		"find all 'a' 'b'", "find all \"x\" \"y\" 'z'", "replace all 'a' with '<' '>' \"|\" \"|\"", "find all 'a' ('b') 'c' {'d'} = s",
 		"find all in 'a' , 'b'", "find all '' 'a'",
 		"find all", "replace all with 'x'", "set p to pattern 'a' begin return true end find all p",
